@@ -139,14 +139,26 @@ func baseNextToken(l *Lexer) token.Token {
 		// Capture position BEFORE reading the string
 		startLine, startColumn := l.Line, l.Column
 		tok = l.NewTokenAt(token.STRING, l.readString('"'), startLine, startColumn)
+		if l.CurrentChar != '"' {
+			// the input ended before the closing delimiter
+			tok.Type = token.ILLEGAL
+		}
 	case '\'':
 		// Capture position BEFORE reading the string
 		startLine, startColumn := l.Line, l.Column
 		tok = l.NewTokenAt(token.STRING, l.readString('\''), startLine, startColumn)
+		if l.CurrentChar != '\'' {
+			// the input ended before the closing delimiter
+			tok.Type = token.ILLEGAL
+		}
 	case '`':
 		// Capture position BEFORE reading the raw string
 		startLine, startColumn := l.Line, l.Column
 		tok = l.NewTokenAt(token.RAW_STRING, l.readRawString(), startLine, startColumn)
+		if l.CurrentChar != '`' {
+			// the input ended before the closing delimiter
+			tok.Type = token.ILLEGAL
+		}
 	case 0:
 		if l.position >= len(l.input) {
 			tok = l.NewToken(token.EOF, "")
